@@ -80,3 +80,12 @@ Proof.
   - split; [|split]; [repeat constructor; cbn; intuition lia | repeat constructor | cbn; lia].
   - vm_compute. split; reflexivity.
 Qed.
+
+(* marginalizing a population out of the joint spectrum of complete data = the spectrum of the remaining populations:
+   the created spectrum is the histogram of the sites' keys (C06_created_spectrum_is_histogram) and the marginal of a
+   histogram over an axis is the histogram of the keys with that coordinate removed *)
+From Sfs Require Import Create StatDefP CreateRelP.
+Theorem C04_marginal_of_histogram : forall sh keys a, positive_shape sh -> 1 < length sh -> a < length sh -> keys_ok sh keys ->
+  q_sum_axis (hist sh keys) a = hist (remove_axis a sh) (map (remove_axis a) keys).
+Proof. exact marg_hist. Qed.
+Print Assumptions C04_marginal_of_histogram.
